@@ -97,6 +97,15 @@ Proof.
   lia.
 Qed.
 
+(* with the length field excluded (EtM / AEAD) the packet is 4 + at least one block: 12 bytes for an
+   8-byte block cipher, i.e. it CAN be shorter than the 16 bytes RFC 4253 section 6 asks for *)
+Lemma min_packet_excl md len :
+  0 < m_bs md -> 0 <= len -> m_etm md || m_aead md = true -> 4 + m_bs md <= packet_len md len.
+Proof.
+  intros Hbs Hlen Hm. pose proof (aligned_at_least_one_block md len Hbs Hlen) as Ha.
+  unfold aligned_len in Ha. rewrite align_offset_eq, Hm in Ha. lia.
+Qed.
+
 Lemma pad_byte_all md len :
   0 < m_bs md <= 252 ->
   4 <= pad_byte md len <= 255 /\ pad_byte md len = padding md len /\ pad_count md len = padding md len.
@@ -235,6 +244,19 @@ Proof.
   - intros digest atag. unfold wire_len. unfold md. rewrite tag_len_initial. lia.
 Qed.
 
+Lemma min_packet_suite c m len :
+  In c c03_cipher_table -> In m c03_mac_table -> 0 <= len ->
+  (if ci_aead c || ma_etm m then 4 + ci_bs c else 16) <= packet_len (negotiated c m) len.
+Proof.
+  intros Hc Hm Hlen. destruct (cipher_in_ok c Hc) as [Hbs H8].
+  pose proof (negotiated_offset c m) as Ho. rewrite align_offset_eq in Ho.
+  destruct (ci_aead c || ma_etm m) eqn:Hx.
+  - destruct (m_etm (negotiated c m) || m_aead (negotiated c m)) eqn:Hy; [|discriminate].
+    apply (min_packet_excl (negotiated c m) len); [cbn [negotiated m_bs]; lia | exact Hlen | exact Hy].
+  - destruct (m_etm (negotiated c m) || m_aead (negotiated c m)) eqn:Hy; [discriminate|].
+    apply min_packet_16; [cbn [negotiated m_bs]; lia | exact H8 | exact Hlen | exact Hy].
+Qed.
+
 (* ---- byte level ------------------------------------------------------------------------------------ *)
 Lemma firstn_app_exact {A} (a b : list A) n : length a = n -> firstn n (a ++ b) = a.
 Proof.
@@ -355,4 +377,32 @@ Section Wire.
       subst wire. subst mac out. unfold branch_of, c03_mac_appended. rewrite Hclear. cbn.
       rewrite Hpk, Hpb. cbn. rewrite app_nil_r. reflexivity.
   Qed.
+  (* send_message = type byte read, optional compression, then framing of the compressed data *)
+  Lemma send_message_layout comp md seq payload wire :
+    0 < m_bs md -> 0 <= m_mac md ->
+    send_message E comp md seq payload = Ok wire ->
+    payload <> [] /\
+    let data := match comp with Some f => f payload | None => payload end in
+    let len := Z.of_nat (length data) in
+    Z.of_nat (length wire) = 4 + length_field md len + tag_len md digest atag /\
+    Z.of_nat (length wire) = wire_len md digest atag len /\
+    (m_enc md = false \/ m_etm md || m_aead md = true ->
+       firstn 4 wire = be_encode 4 (length_field md len) /\ be_decode (firstn 4 wire) = length_field md len) /\
+    (m_enc md = false ->
+       exists pad, wire = be_encode 4 (length_field md len) ++ [padding md len] ++ data ++ pad /\
+                   Z.of_nat (length pad) = padding md len).
+  Proof.
+    intros Hbs Hmac Hs. unfold send_message in Hs.
+    destruct (Z.of_nat (length payload) <=? c03_type_byte_index) eqn:Hi; [discriminate|].
+    split.
+    { intros ->. unfold c03_type_byte_index in Hi. cbn in Hi. discriminate. }
+    assert (Hf : framed_payload comp payload =
+                 Ok (match comp with Some f => f payload | None => payload end)).
+    { unfold framed_payload. destruct comp; reflexivity. }
+    rewrite Hf in Hs. cbn [bind] in Hs.
+    exact (send_wire_layout md seq _ wire Hbs Hmac Hs).
+  Qed.
+
+  Lemma send_message_empty comp md seq : send_message E comp md seq [] = Raise IndexErr.
+  Proof. reflexivity. Qed.
 End Wire.
